@@ -10,7 +10,7 @@ from ..core import (AnalysisError, FuncInfo, Index, Result, call_name, dotted, i
 from ..nf import graft, nf, parse_expr, root_kind
 from ..templates import (SIGNS, Hole, Lit, Opq, Parts, Path, Rep, SNone, SStr, TermEval, TimeRef, hole_keys,
                          ident_list, parts_text, render, role_names)
-from ..util import params, single_assignments
+from ..util import const_int, params, single_assignments
 
 OPS = "BPTK_Py/sddsl/operators.py"
 ELEMENT = "BPTK_Py/sddsl/element.py"
@@ -877,7 +877,14 @@ def _builtins(idx: Index, res: Result, renderers: List[Renderer]) -> None:
     res.check("BUILTIN", "lookup interpolates linearly between the points", ok, lk.loc(), lk.qual, src(ic[0]) if ic else "",
               "the lookup does not use linear interp1d(x_vals, y_vals)", key="BUILTIN/_lookup/interp")
     xv = single_assignments(lk.node)
-    ok = "x[0]" in src(xv.get("x_vals", [ast.Constant(0)])[0]) and "x[1]" in src(xv.get("y_vals", [ast.Constant(0)])[0])
+    def coord_of(e) -> Optional[int]:
+        """index of the point coordinate a comprehension collects: [p[0] for p in points] -> 0"""
+        for c in ast.walk(e):
+            if isinstance(c, (ast.ListComp, ast.GeneratorExp)) and len(c.generators) == 1 and isinstance(c.generators[0].target, ast.Name) \
+                    and isinstance(c.elt, ast.Subscript) and isinstance(c.elt.value, ast.Name) and c.elt.value.id == c.generators[0].target.id:
+                return const_int(c.elt.slice)
+        return None
+    ok = coord_of(xv.get("x_vals", [ast.Constant(0)])[0]) == 0 and coord_of(xv.get("y_vals", [ast.Constant(0)])[0]) == 1
     res.check("BUILTIN", "lookup takes x from point[0], y from point[1]", ok, lk.loc(), lk.qual, "x_vals / y_vals",
               "the lookup swaps the coordinates of its points", key="BUILTIN/_lookup/coords")
 
